@@ -2,7 +2,7 @@
    Statements only; proofs are in Http/CodecFacts.v and Http/BuildersFacts.v.
    Models: Http/Builders.v (utils.py builders, HttpParser.build/build_response/update_body),
    Http/Chunk.v, Http/Parser.v.  Reference side (specifications): Http/Grammar.v. *)
-From PM Require Import Lib.Bytes Lib.PyStr Lib.PyStrFacts2 Http.Url Http.Chunk Http.ChunkFacts Http.Parser
+From PM Require Import Lib.Bytes Lib.PyStr Lib.PyStrFacts2 Http.Url Http.Chunk Http.ChunkFacts Http.Parser Http.ParserFacts
   Http.Builders Http.BuildersFacts Http.Grammar Http.CodecFacts.
 From Coq Require Import ZArith.
 
@@ -64,3 +64,63 @@ Theorem C15_update_body : forall (gz gunz : bytes -> bytes), (forall x, gunz (gz
      else header p' CONTENT_LENGTH = Ok (dec_of_N (len (stored_body gz p data)))).
 Proof. exact update_body_spec. Qed.
 Print Assumptions C15_update_body.
+
+(* ---------------------------------------------------------------------------------------------- *)
+(* builders: what goes on the wire                                                                 *)
+
+(* build_http_request / build_http_response emit start line, one "name: value" line per header of
+   the SPECIFICATION header map (Grammar.expected_*_headers: the caller's headers in their order, with
+   Content-Type / Content-Length / User-Agent / Connection set case-insensitively in place or appended),
+   a blank line, and the body. *)
+Theorem C15_build_request_wire : forall ua a,
+  build_request ua a =
+  ra_method a ++ [SP] ++ ra_url a ++ [SP] ++ ra_version a ++ CRLF ++
+  header_lines (expected_request_headers ua a) ++ CRLF ++ or_empty (ra_body a).
+Proof. exact build_request_wire. Qed.
+Print Assumptions C15_build_request_wire.
+
+Theorem C15_build_response_wire : forall a,
+  build_response_of a =
+  sa_version a ++ [SP] ++ dec_of_Z (sa_status a) ++
+  (if truthy (sa_reason a) then [SP] ++ or_empty (sa_reason a) else []) ++ CRLF ++
+  header_lines (expected_response_headers a) ++ CRLF ++ or_empty (sa_body a).
+Proof. exact build_response_wire. Qed.
+Print Assumptions C15_build_response_wire.
+
+(* ---------------------------------------------------------------------------------------------- *)
+(* serialise, then parse: same start line, headers and body                                        *)
+
+(* For all arguments in [wf_req_args] — method/target without SP, CR, LF; version without CR, LF;
+   header names non-empty, without colon/CR/LF, not starting or ending with whitespace, pairwise
+   different case-insensitively; values (and content_type, and the User-Agent value when it is added)
+   without CR/LF and stripped; framing the parser can follow: Transfer-Encoding, if given, is "chunked"
+   with a body that IS a chunked stream and no Content-Length, otherwise a body is announced by the
+   builder's own Content-Length (length below CPython's int() digit limit) and an absent body by no
+   or a zero Content-Length: exactly what the builder does not check — and any result [u] of
+   Url.from_bytes on the target (treated as opaque), the built request parses in one piece to a
+   COMPLETE message with nothing left over, the same method, target, version, exactly the specified
+   header map in order, and the same (decoded) body. *)
+Theorem C15_parse_build_request : forall ua a u,
+  wf_req_args ua a = true -> from_bytes DEFAULT_ALLOWED_URL_SCHEMES (ra_url a) = Ok u ->
+  exists p, parse (new_parser REQUEST_PARSER) (build_request ua a) = Ok p /\
+    state p = COMPLETE /\ buffer p = None /\
+    method p = Some (ra_method a) /\ version p = Some (ra_version a) /\ purl p = Some u /\
+    is_https_tunnel p = bytes_eqb (ra_method a) CONNECT /\
+    (host p, port p, path p) = line_attributes (bytes_eqb (ra_method a) CONNECT) u /\
+    headers p = lift_headers (expected_request_headers ua a) /\
+    bodyb p = Grammar.expected_body (expected_request_headers ua a) (ra_body a).
+Proof. exact parse_build_request. Qed.
+Print Assumptions C15_parse_build_request.
+
+(* Same for responses (every status code incl. negative ones, reason absent / empty / with spaces,
+   no_cl with a caller-supplied correct Content-Length, chunked bodies). *)
+Theorem C15_parse_build_response : forall a,
+  wf_resp_args a = true ->
+  exists p, parse (new_parser RESPONSE_PARSER) (build_response_of a) = Ok p /\
+    state p = COMPLETE /\ buffer p = None /\
+    version p = Some (sa_version a) /\ code p = Some (dec_of_Z (sa_status a)) /\
+    reason p = (if truthy (sa_reason a) then sa_reason a else None) /\
+    headers p = lift_headers (expected_response_headers a) /\
+    bodyb p = Grammar.expected_body (expected_response_headers a) (sa_body a).
+Proof. exact parse_build_response. Qed.
+Print Assumptions C15_parse_build_response.
